@@ -129,6 +129,18 @@ def oracle(which, g, items, problems, replay):
             vio.append({"sig": "C01:" + kind, "what": "%s after pop %d" % (kind, i), "replay": dict(replay, index=i)})
             break
     else:
+        # the ruleset files' own grid (what the loader made of them is not taken on trust)
+        rs_, fl = replay.get("ruleset"), (replay.get("skip_brute", False), replay.get("skip_case", False), replay.get("folder", "Grammar"))
+        if rs_ is not None:
+            from collections import Counter
+            grid = impl_next.independent_grid(rs_, fl[0], fl[1], fl[2], len(g.grammar.get("M", [])))
+            got_pt = Counter(tuple(tuple(x) for x in i["pt"]) for i in items)
+            if grid != got_pt:
+                miss = list((grid - got_pt).elements())[:3]
+                extra = list((got_pt - grid).elements())[:3]
+                vio.append({"sig": "C02:missing" if miss else "C02:repeated",
+                            "what": "emitted pre-terminals differ from the grid the ruleset files define (base structures x one group per "
+                                    "variable): missing %r, extra/repeated %r" % (miss, extra), "replay": replay})
         want = sorted(impl_next.key(i) for i in impl_next.product_enumeration(g))
         got = sorted(impl_next.key(i) for i in items)
         if want != got:
